@@ -526,6 +526,28 @@ def _abi_post(agg, res, label, synthetic):
         except OSError:
             pass
         agg.abi_official = exp
+    # several exported names are aliases of one address (e.g. the AVX512 non-VAES GCM entry points are the AVX2 "gen4"
+    # routines): entering one enters all of them
+    alias = agg.__dict__.get("abi_alias")
+    if alias is None:
+        alias = {}
+        try:
+            import subprocess as _sp
+            from vlib import build as _build
+            so = _os.path.join(_build.lib("base", quiet=True), "libIPSec_MB.so.2")
+            byaddr = {}
+            for ln in _sp.run(["nm", "-D", "--defined-only", so], stdout=_sp.PIPE, text=True).stdout.splitlines():
+                f = ln.split()
+                if len(f) == 3 and f[1] in "TtWw":
+                    byaddr.setdefault(f[0], []).append(f[2])
+            for grp in byaddr.values():
+                for n in grp:
+                    alias[n] = grp
+        except Exception:  # noqa: BLE001
+            pass
+        agg.abi_alias = alias
+    for n in list(names):
+        names.update(alias.get(n, ()))
     hit = names & exp
     agg.counts["exported_functions_total"] = len(exp)
     agg.counts["exported_functions_entered_directly"] = len(hit)
@@ -563,7 +585,7 @@ PLANS["C18"] = {
              "states are counted separately in abi_lane_state (variant, call, cipher, hash, queue occupancy, outcome); "
              "the dynamic symbols actually entered are compared with lib/libIPSec_MB.def. non-trivial = all."),
     "floors": {"quick": {"tramp_calls": 2000000, "cov:C18": 4000, "cov:abi_lane_state": 30000,
-                         "exported_functions_entered_directly": 150}},
+                         "exported_functions_entered_directly": 480}},
     "assumptions": ["exported per-architecture functions are reached through the manager's function pointers of the "
                     "matching variant; AVX2 t3/t4-only and exported-but-unreferenced symbols are listed in evidence "
                     "extra as not entered",
